@@ -3,6 +3,7 @@
                                   PlanCheck.plan_ok (the verified plan classifier) on the real plan:
        verdict <checked 0|1> | <stmt id>:<class> ... | <fn id>:<class> ... | S <residual stmts> F <residual fns> | D <dead ids> | L <live fn ids>
        verdict2 <checked main> <checked aug> | classes under the augmented plan | residual | A <added stmt ids>   (PlanCheck.plan_ok2)
+       verdict3 <checked main> <checked liveness> | A <residual stmt ids accepted as flow-sensitive dead stores> | S <residual stmts> F <residual fns>   (LiveCheck.plan_ok3)
      classes: U unreachable, N never-read (covered), NM never-read but rhs may raise Type mismatch /
               declaration kept, DS dead store (flow), DC dead store with calls, X no class;
               functions: UF unused, XF no class *)
